@@ -7,6 +7,7 @@
 kinds
   random    harness.gen.fields.random_field(Random(gseed), allow=…) then the mutations
   example   cfdm.example_field(n) then the mutations
+  grid3     a small field on three data axes (base_grid3) then the mutations
   abinitio  a field built here from explicit lists (used by the shrinker and the corpus)
 
 Mutations add the construct classes the shared generator does not make: numeric scalar auxiliary
@@ -44,6 +45,37 @@ def _data_axes(f):
         return list(f.get_data_axes(default=()))
     except Exception:
         return []
+
+
+def base_grid3(rng):
+    """A small field on three data axes of size 2-4 (any order under the data), two of them
+    possibly with dimension coordinates: the base for N-d formula terms."""
+    C = cfdm()
+    f = C.Field(properties={"standard_name": rng.choice(["air_temperature", "eastward_wind"]), "units": "K"})
+    if rng.random() < 0.5:
+        f.nc_set_variable(rng.choice(["ta", "ua", "var"]))
+    sizes = [rng.choice([2, 3, 4]) for _ in range(3)]
+    axes = []
+    for i, n in enumerate(sizes):
+        da = C.DomainAxis(n)
+        if rng.random() < 0.4:
+            da.nc_set_dimension(["lev", "y", "x"][i] + rng.choice(["", "1"]))
+        axes.append(f.set_construct(da))
+    order = list(range(3))
+    if rng.random() < 0.5:
+        rng.shuffle(order)
+    shp = [sizes[i] for i in order]
+    f.set_data(C.Data(np.arange(int(np.prod(shp)), dtype=rng.choice(["f8", "f4", "i4"])).reshape(shp)), axes=[axes[i] for i in order])
+    for i, (sn, u) in ((1, ("latitude", "degrees_north")), (2, ("longitude", "degrees_east"))):
+        if rng.random() < 0.6:
+            c = C.DimensionCoordinate(properties={"standard_name": sn, "units": u},
+                                      data=C.Data(np.arange(sizes[i], dtype="f8") * 2 + 10 * i))
+            if rng.random() < 0.4:
+                c.set_bounds(G._bounds(rng, c.data))
+            f.set_construct(c, axes=[axes[i]])
+    if rng.random() < 0.3:
+        f.set_construct(C.CellMethod(axes=[axes[rng.randrange(3)]], method="mean"))
+    return f
 
 
 # ------------------------------------------------------------------ mutations
@@ -338,6 +370,252 @@ def m_ft_two_coords(f, rng):
         r.set_coordinate(k)
 
 
+def m_cm_quals(f, rng):
+    """Cell methods with the qualifier combinations of CF 7.3: one, two or three of
+    within / where / over, none / one / one-per-axis intervals (with and without units), a comment
+    of one or several words or none.  `within` / `over` are only put on cell methods that do not
+    make an axis climatological (a free name such as `area`, or two axes)."""
+    C = cfdm()
+    if not hasattr(f, "cell_methods"):
+        return
+    das = _data_axes(f)
+    for _ in range(rng.choice([1, 1, 2])):
+        r = rng.random()
+        if r < 0.3 or not das:
+            axes = [rng.choice(["area", "area", "volume"])]
+        elif r < 0.65 or len(das) < 2:
+            axes = [rng.choice(das)]
+        else:
+            axes = rng.sample(das, 2)
+        cm = C.CellMethod(axes=axes, method=rng.choice(["mean", "maximum", "minimum", "sum", "variance", "mode"]))
+        single_axis = len(axes) == 1 and axes[0] in das
+        portions = ["where"] if single_axis else ["within", "where", "over"]
+        k = rng.choice([0, 1, 1, 2, 2, 2, 3])
+        chosen = rng.sample(portions, min(k, len(portions)))
+        vals = {"within": ["days", "years"], "where": ["land", "sea", "sea_ice"], "over": ["all_area_types", "years", "sea"]}
+        for q in ("within", "where", "over"):
+            if q in chosen:
+                cm.set_qualifier(q, rng.choice(vals[q]))
+        r = rng.random()
+        n_int = 0 if r < 0.4 else (1 if r < 0.75 or len(axes) == 1 else len(axes))
+        if n_int:
+            units = ["hour", "m", "degrees", "km", None]
+            iv = []
+            for i in range(n_int):
+                u = rng.choice(units)
+                v = rng.choice([1, 2.5, 0.1, 30, 6])
+                iv.append(C.Data(v, u) if u else C.Data(v))
+            cm.set_qualifier("interval", iv)
+        r = rng.random()
+        if r < 0.25:
+            cm.set_qualifier("comment", rng.choice(["sampled", "masked"]))
+        elif r < 0.5:
+            cm.set_qualifier("comment", rng.choice(["sampled twice daily", "area weighted", "see the documentation"]))
+        f.set_construct(cm)
+
+
+def m_ft_nd(f, rng):
+    """A parametric vertical coordinate (with or without bounds) whose formula terms are N-d
+    domain ancillaries in every axis order: along the vertical axis only, spanning the vertical
+    axis and one or two others (b(z,y), b(y,z), b(z,y,x), ...), horizontal only; each with or
+    without bounds."""
+    C = cfdm()
+    sizes = _sizes(f)
+    das = [a for a in _data_axes(f) if sizes[a] > 1]
+    da_all = f.constructs.data_axes()
+    dimc = {da_all[k][0]: k for k in f.dimension_coordinates(todict=True)}
+    free = [a for a in das if a not in dimc]
+    if das and rng.random() < 0.08:
+        # a scalar parametric coordinate: a size-1 axis outside the data, horizontal terms only
+        az = f.set_construct(C.DomainAxis(1))
+        z = C.DimensionCoordinate(properties={"standard_name": "atmosphere_hybrid_height_coordinate",
+                                              "computed_standard_name": "altitude"}, data=C.Data(np.array([1.5])))
+        kz = f.set_construct(z, axes=[az])
+        ax = das[:2]
+        shp = [sizes[a] for a in ax]
+        o = C.DomainAncillary(properties={"standard_name": "surface_altitude", "units": "m"},
+                              data=C.Data(np.arange(int(np.prod(shp)), dtype="f8").reshape(shp) + 7))
+        ko = f.set_construct(o, axes=ax)
+        f.set_construct(C.CoordinateReference(
+            coordinates=[kz],
+            coordinate_conversion=C.CoordinateConversion(
+                parameters={"standard_name": "atmosphere_hybrid_height_coordinate", "computed_standard_name": "altitude"},
+                domain_ancillaries={"orog": ko})))
+        return
+    if free:
+        az = rng.choice(free)
+        kz = None
+    else:
+        # turn an existing dimension coordinate (that no coordinate reference uses) into the parametric one
+        inref = set()
+        for r in f.coordinate_references(todict=True).values():
+            inref.update(r.coordinates())
+        cand = [a for a in das if dimc[a] not in inref]
+        if not cand or any(c.get_property("standard_name", None) == "atmosphere_hybrid_height_coordinate"
+                           for c in f.coordinates(todict=True).values()):
+            return
+        az = rng.choice(cand)
+        kz = dimc[az]
+    n = sizes[az]
+    if kz is None:
+        z = C.DimensionCoordinate(properties={"standard_name": "atmosphere_hybrid_height_coordinate",
+                                              "computed_standard_name": "altitude"},
+                                  data=C.Data(np.arange(n, dtype="f8") + 1))
+        if rng.random() < 0.8:
+            z.set_bounds(C.Bounds(data=C.Data(np.stack([np.arange(n) + 0.5, np.arange(n) + 1.5], axis=-1))))
+            if rng.random() < 0.3:
+                z.bounds.nc_set_variable("lev_bnds")
+        if rng.random() < 0.3:
+            z.nc_set_variable("lev")
+        kz = f.set_construct(z, axes=[az])
+    else:
+        z = f.constructs[kz]
+        z.set_property("standard_name", "atmosphere_hybrid_height_coordinate")
+        z.set_property("computed_standard_name", "altitude")
+        z.del_property("units", None)
+    zb = f.constructs[kz].has_bounds()
+    others = [a for a in das if a != az]
+    rng.shuffle(others)
+
+    def dan(axes, off, bounds, props, ncvar=None):
+        shp = [sizes[a] for a in axes]
+        v = np.arange(int(np.prod(shp)), dtype="f8").reshape(shp) * 0.5 + off
+        d = C.DomainAncillary(properties=props, data=C.Data(v))
+        if bounds:
+            nv = 2
+            d.set_bounds(C.Bounds(data=C.Data(np.stack([v - 0.25 + k * 0.5 for k in range(nv)], axis=-1))))
+            if ncvar and rng.random() < 0.5:
+                d.bounds.nc_set_variable(ncvar + "_bnds")
+        if ncvar:
+            d.nc_set_variable(ncvar)
+        return f.set_construct(d, axes=axes)
+
+    named = rng.random() < 0.5
+    p_b = 0.8 if zb else 0.15  # bounds of a term can only be stored through the coordinate's bounds variable
+    terms = {}
+    terms["a"] = dan([az], 10, rng.random() < p_b, {"units": "m"}, "a" if named else None)
+    # b: any axis order that includes the vertical axis
+    nb = rng.choice([1, 2, 2, 2, 3, 3]) if len(others) >= 2 else (rng.choice([1, 2, 2, 2, 2]) if others else 1)
+    axes_b = [az] + others[: nb - 1]
+    rng.shuffle(axes_b)
+    terms["b"] = dan(axes_b, 100, rng.random() < p_b, {"units": "1"}, "b" if named else None)
+    if others:
+        no = rng.choice([1, 2]) if len(others) >= 2 else 1
+        axes_o = rng.sample(others, no)
+        terms["orog"] = dan(axes_o, 1000, rng.random() < 0.12, {"standard_name": "surface_altitude", "units": "m"},
+                            "orog" if named and rng.random() < 0.5 else None)
+    ref = C.CoordinateReference(
+        coordinates=[kz],
+        coordinate_conversion=C.CoordinateConversion(
+            parameters={"standard_name": "atmosphere_hybrid_height_coordinate", "computed_standard_name": "altitude"},
+            domain_ancillaries=terms))
+    f.set_construct(ref)
+
+
+DATUMS = [{"earth_radius": 6371007.0}, {"earth_radius": 7000000.0},
+          {"semi_major_axis": 6378137.0, "inverse_flattening": 298.257223563}]
+
+
+def m_multi_ref(f, rng):
+    """Two or three coordinate references in every insertion order: two horizontal grid mappings
+    (rotated pole over the dimension coordinates of two data axes, latitude_longitude over 2-d
+    auxiliary coordinates) whose datums are equal, different or absent, and a parametric vertical
+    coordinate reference without datum or with the datum of the first, the second, or neither."""
+    C = cfdm()
+    if f.coordinate_references(todict=True) and not _ft_refs(f):
+        return
+    sizes = _sizes(f)
+    das = [a for a in _data_axes(f) if sizes[a] > 1]
+    if len(das) < 2:
+        return
+    da_all = f.constructs.data_axes()
+    dimc = {da_all[k][0]: k for k in f.dimension_coordinates(todict=True)}
+    # keep the vertical axis of an existing parametric coordinate out of the horizontal pair
+    vert = set()
+    for r in _ft_refs(f).values():
+        o = _owning(f, r)
+        if o is not None:
+            vert.update(da_all[o])
+    hor = [a for a in das if a not in vert]
+    if len(hor) < 2:
+        return
+    y, x = hor[0], hor[1]
+    ks = []
+    for a, (sn, u) in ((y, ("grid_latitude", "degrees")), (x, ("grid_longitude", "degrees"))):
+        if a in dimc:
+            ks.append(dimc[a])
+        else:
+            c = C.DimensionCoordinate(properties={"standard_name": sn, "units": u}, data=C.Data(np.arange(sizes[a], dtype="f8")))
+            ks.append(f.set_construct(c, axes=[a]))
+    shp = [sizes[y], sizes[x]]
+    k2 = []
+    for sn, u, off in (("latitude", "degrees_north", 40), ("longitude", "degrees_east", 300)):
+        c = C.AuxiliaryCoordinate(properties={"standard_name": sn, "units": u},
+                                  data=C.Data(np.arange(int(np.prod(shp)), dtype="f8").reshape(shp) * 0.25 + off))
+        if rng.random() < 0.3:
+            c.nc_set_variable(sn[:3] + "2d")
+        k2.append(f.set_construct(c, axes=[y, x]))
+    d1 = rng.choice(DATUMS) if rng.random() < 0.85 else None
+    if rng.random() < 0.7:
+        d2 = rng.choice([d for d in DATUMS if d != d1] + [None])
+    else:
+        d2 = d1
+    gm1 = C.CoordinateReference(
+        coordinates=ks,
+        coordinate_conversion=C.CoordinateConversion(parameters={
+            "grid_mapping_name": "rotated_latitude_longitude",
+            "grid_north_pole_latitude": 38.0, "grid_north_pole_longitude": 190.0}),
+        datum=C.Datum(parameters=dict(d1)) if d1 else None)
+    gm2 = C.CoordinateReference(
+        coordinates=k2,
+        coordinate_conversion=C.CoordinateConversion(parameters={"grid_mapping_name": "latitude_longitude"}),
+        datum=C.Datum(parameters=dict(d2)) if d2 else None)
+    if rng.random() < 0.4:
+        gm1.nc_set_variable("rotated_pole")
+    if rng.random() < 0.3:
+        gm2.nc_set_variable("crs")
+    refs = [gm1, gm2]
+    # the vertical reference: an existing one (taken out and put back in the chosen order), or a new one
+    r = rng.random()
+    others = [d for d in DATUMS if d != d1 and d != d2]
+    vd = d1 if r < 0.5 else (d2 if r < 0.7 else (None if r < 0.85 else (others[0] if others else None)))
+    vref = None
+    ft = _ft_refs(f)
+    if ft:
+        kv, vref = list(ft.items())[0]
+        f.del_construct(kv)
+    else:
+        free = [a for a in das if a not in (y, x) and a not in dimc]
+        if free and rng.random() < 0.85:
+            az = free[0]
+            n = sizes[az]
+            z = C.DimensionCoordinate(properties={"standard_name": "atmosphere_hybrid_height_coordinate",
+                                                  "computed_standard_name": "altitude"},
+                                      data=C.Data(np.arange(n, dtype="f8") + 1))
+            if rng.random() < 0.5:
+                z.set_bounds(C.Bounds(data=C.Data(np.stack([np.arange(n) + 0.5, np.arange(n) + 1.5], axis=-1))))
+            kz = f.set_construct(z, axes=[az])
+            withb = z.has_bounds() and rng.random() < 0.6
+            terms = {}
+            for t, off in (("a", 10), ("b", 100)):
+                v = np.arange(n, dtype="f8") * 0.5 + off
+                d = C.DomainAncillary(data=C.Data(v))
+                if withb:
+                    d.set_bounds(C.Bounds(data=C.Data(np.stack([v - 0.25, v + 0.25], axis=-1))))
+                terms[t] = f.set_construct(d, axes=[az])
+            vref = C.CoordinateReference(
+                coordinates=[kz],
+                coordinate_conversion=C.CoordinateConversion(
+                    parameters={"standard_name": "atmosphere_hybrid_height_coordinate", "computed_standard_name": "altitude"},
+                    domain_ancillaries=terms))
+    if vref is not None:
+        vref.set_datum(C.Datum(parameters=dict(vd)) if vd else C.Datum())
+        refs.append(vref)
+    rng.shuffle(refs)
+    for ref in refs:
+        f.set_construct(ref)
+
+
 def m_compress(f, rng):
     """Ragged compression of the field data (DSG) through Field.compress."""
     if not hasattr(f, "compress") or not f.has_data() or f.data.ndim < 2 or f.data.dtype.kind in "SU":
@@ -408,6 +686,9 @@ MUTATIONS = {
     "gm_cf": m_gm_cf,
     "ft_cf": m_ft_cf,
     "ft_two_coords": m_ft_two_coords,
+    "cm_quals": m_cm_quals,
+    "ft_nd": m_ft_nd,
+    "multi_ref": m_multi_ref,
     "compress": m_compress,
     "unlimited": m_unlimited,
     "dup_scalar": m_dup_scalar,
@@ -415,11 +696,11 @@ MUTATIONS = {
     "names_clash": m_names_clash,
 }
 # mutations that keep a stage-A field inside the proved class
-A_MUTS = ["scalar_dim_bounds", "climatology", "aux_nd_bounds", "cm_multi", "unlimited"]
+A_MUTS = ["scalar_dim_bounds", "climatology", "aux_nd_bounds", "cm_multi", "unlimited", "cm_quals"]
 # mutations of stage A that hit a known finding or leave the modelled class
 A_EDGE = ["numeric_scalar_aux", "props", "string_data", "masked_int", "cm_std", "dup_scalar", "dim_aux_scalar_axis",
           "names_clash", "external_measure", "two_external_measures"]
-B_MUTS = ["gm_cf", "ft_cf"]
+B_MUTS = ["gm_cf", "ft_cf", "ft_nd", "multi_ref"]
 B_EDGE = ["ft_two_coords"]
 C_MUTS = ["compress"]
 
@@ -813,7 +1094,101 @@ def fx_bounds_ncdim(f):
     return f
 
 
+def cm_unitless_interval(f):
+    """Cell methods with an interval without units that is followed by another interval or by a
+    comment (`(interval: 1 comment: x)`): cfdm.read takes the next keyword for the units."""
+    if not hasattr(f, "cell_methods"):
+        return []
+    out = []
+    for k, cm in f.cell_methods(todict=True).items():
+        iv = list(cm.get_qualifier("interval", ()))
+        for i, d in enumerate(iv):
+            unitless = d.get_units(None) is None
+            followed = i + 1 < len(iv) or cm.get_qualifier("comment", None) is not None
+            if unitless and followed:
+                out.append(k)
+                break
+    return out
+
+
+def fx_cm_unitless_interval(f):
+    C = cfdm()
+    for k in cm_unitless_interval(f):
+        cm = f.constructs[k]
+        iv = [d if d.get_units(None) is not None else C.Data(d.array, "1") for d in cm.get_qualifier("interval")]
+        cm.set_qualifier("interval", iv)
+    return f
+
+
+def _vertical_axes(f):
+    """domain ancillary key -> (has the owning parametric coordinate bounds?, its vertical axis)
+    for every term of every formula-terms reference with exactly one owning coordinate."""
+    out = {}
+    da = f.constructs.data_axes()
+    for r in _ft_refs(f).values():
+        o = _owning(f, r)
+        if o is None:
+            continue
+        zb = f.constructs[o].has_bounds()
+        for t, k in r.coordinate_conversion.domain_ancillaries().items():
+            if k is not None:
+                out.setdefault(k, []).append((zb, da[o][0]))
+    return out
+
+
+def scalar_parametric(f):
+    """Formula-terms references whose owning coordinate is alone on a size-1 axis outside the data
+    (written as a scalar coordinate variable with a formula_terms attribute)."""
+    if type(f).__name__ != "Field":
+        return []
+    da = f.constructs.data_axes()
+    nd = set(_nondata_axes(f))
+    out = []
+    for k, r in _ft_refs(f).items():
+        o = _owning(f, r)
+        if o is not None and len(da[o]) == 1 and da[o][0] in nd and _spanning(f, da[o][0]) == [o]:
+            out.append(k)
+    return out
+
+
+def fx_scalar_parametric(f):
+    for k in scalar_parametric(f):
+        f.del_construct(k)
+    used = set()
+    for r in f.coordinate_references(todict=True).values():
+        used.update(v for v in r.coordinate_conversion.domain_ancillaries().values() if v is not None)
+    for k in list(f.domain_ancillaries(todict=True)):
+        if k not in used:
+            f.del_construct(k)
+    return f
+
+
+def dan_bounds_unencodable(f):
+    """Domain ancillaries with bounds that CF-netCDF has no place for: the bounds of a formula term
+    are only named by the formula_terms attribute of the parametric coordinate's bounds variable,
+    and only for terms that span the vertical axis."""
+    va = _vertical_axes(f)
+    da = f.constructs.data_axes()
+    out = []
+    for k, c in f.domain_ancillaries(todict=True).items():
+        if not c.has_bounds():
+            continue
+        uses = va.get(k, [])
+        if not uses or not all(zb and z in da[k] for zb, z in uses):
+            out.append(k)
+    return out
+
+
+def fx_dan_bounds(f):
+    for k in dan_bounds_unencodable(f):
+        f.constructs[k].del_bounds()
+    return f
+
+
 FIXES = {
+    "cm_unitless_interval": fx_cm_unitless_interval,
+    "dan_bounds": fx_dan_bounds,
+    "scalar_parametric": fx_scalar_parametric,
     "aux_on_dimcoord_scalar_axis": fx_aux_on_dimcoord_scalar_axis,
     "one_external": fx_one_external,
     "cm_free_name_clash": fx_cm_free_name_clash,
@@ -843,6 +1218,8 @@ def build(spec):
                            dtype=spec.get("dtype"))
     elif kind == "example":
         f = C.example_field(spec["n"])
+    elif kind == "grid3":
+        f = base_grid3(random.Random(spec["gseed"]))
     else:
         raise ValueError(kind)
     for name in spec.get("muts", ()):
@@ -869,7 +1246,7 @@ def build(spec):
 
 
 def random_spec(rng, tier):
-    """Choose a spec: ~60 % stage A inside the proved class, ~15 % stage-A edges, ~15 % stage B, ~10 % stage C."""
+    """Choose a spec: ~55 % stage A inside the proved class, ~15 % stage-A edges, ~20 % stage B, ~10 % stage C."""
     r = rng.random()
     spec = {"gseed": rng.randrange(1 << 30)}
     if r < 0.08:
@@ -879,10 +1256,10 @@ def random_spec(rng, tier):
         return spec
     spec["kind"] = "random"
     spec["max_axes"] = rng.choice([1, 2, 3, 4, 4])
-    if r < 0.62:
+    if r < 0.58:
         allow = [a for a in A_ALLOW if rng.random() < 0.85]
         muts = [m for m in A_MUTS if rng.random() < 0.25]
-    elif r < 0.77:
+    elif r < 0.72:
         allow = [a for a in A_ALLOW if rng.random() < 0.85]
         muts = [m for m in A_MUTS if rng.random() < 0.15] + rng.sample(A_EDGE, rng.choice([1, 1, 2]))
     elif r < 0.92:
@@ -891,9 +1268,26 @@ def random_spec(rng, tier):
             allow += ["gm", "ft", "dan"]
             muts = []
         else:
-            muts = [m for m in B_MUTS if rng.random() < 0.7] or ["gm_cf"]
+            r1 = rng.random()
+            muts = ["gm_cf"] if r1 < 0.45 else []
+            r2 = rng.random()
+            if r2 < 0.3:
+                muts.append("ft_cf")
+            elif r2 < 0.8:
+                muts.append("ft_nd")
+            if 0.45 <= r1 < 0.85:
+                # several coordinate references, after the vertical one so that it can be re-inserted
+                muts.append("multi_ref")
+            muts = muts or ["gm_cf"]
             if rng.random() < 0.15:
-                muts = ["ft_two_coords"] + [m for m in muts if m != "ft_cf"]
+                muts = ["ft_two_coords"] + [m for m in muts if m not in ("ft_cf", "ft_nd")]
+            if rng.random() < 0.25:
+                muts.append("cm_quals")
+            if "ft_nd" in muts or "multi_ref" in muts:
+                # N-d formula terms and two grid mappings need two or three data axes
+                spec["max_axes"] = rng.choice([3, 4, 4])
+                if rng.random() < (0.8 if "multi_ref" in muts else 0.6):
+                    spec["kind"] = "grid3"
             if rng.random() < 0.5 and "dim" in allow:
                 allow.remove("dim")
     else:
